@@ -9,7 +9,7 @@ overlaps (shares a line with) a kept one. The same must hold for the violation-l
 [line, line + line_count - 1] of each violation (expected to fail: known finding C03-violation-overlap-length).
 `sorted(xs, key=...)` is a trusted external contract of the engine: same length, same members, ordered by key."""
 from pyvc.api import (contract, lemma, Int, Bool, Str, SeqOf, TupleOf, Opt, Rec, implies, call, ih, opaque, reveal, use,
-                      is_sorted, mk)
+                      is_sorted, sorted_member_fact, mk)
 from contracts._common import ViolationT, PathT
 
 D = "src/linters/dry/deduplicator.py::ViolationDeduplicator."
@@ -156,6 +156,7 @@ def per_file_dedup(file_blocks, x):
     use(greedy_members, sorted(file_blocks, key=lambda b: b.start_line), [], x)
     use(greedy_maximal, sorted(file_blocks, key=lambda b: b.start_line), [], x)
     use(greedy_free, sorted(file_blocks, key=lambda b: b.start_line), [])
+    sorted_member_fact(file_blocks, x, key=lambda b: b.start_line)
     reveal(free, [])
     return implies(x in r, x in file_blocks) and free(r) and \
         implies(x in file_blocks, x in r or any(overlap(x, k) for k in r))
@@ -360,6 +361,15 @@ def _group_violations_native(violations):
     return out
 
 
+def groups_ok(groups, blocks):
+    """Every entry holds exactly the blocks of its file, in their original order."""
+    return all(grp == [b for b in blocks if b.file_path == key] for key, grp in groups)
+
+
+def has_group(groups, b):
+    return any(key == b.file_path for key, grp in groups)
+
+
 block_groups = uf("dry_block_groups", [Blocks], BlockGroups, concrete=_group_blocks_native)
 violation_groups = uf("dry_violation_groups", [Violations], ViolationGroups, concrete=_group_violations_native)
 
@@ -373,10 +383,10 @@ class GroupBlocksByFile:
         return block_groups(blocks)
 
     def ensures_each_group_is_the_blocks_of_its_file(blocks, result):
-        return all(grp == [b for b in blocks if b.file_path == key] for key, grp in result)
+        return groups_ok(result, blocks)
 
     def ensures_every_file_has_a_group(blocks, result):
-        return all(any(key == b.file_path for key, grp in result) for b in blocks)
+        return all(has_group(result, b) for b in blocks)
 
 
 @contract(BG + "group_violations_by_file", props=["C03"], types=dict(self=GrouperT, violations=Violations),
@@ -444,3 +454,226 @@ class DeduplicateViolations:
 
     def inv0(grouped, deduplicated, rest):
         return reveal(vdedup_groups, rest) and vdedup_groups(list(grouped.values())) == deduplicated + vdedup_groups(rest)
+
+
+# =================================================================== deduplicate_blocks across files (pure lemmas + property)
+def same_file_cover(x, l):
+    """Some block of l lies in x's file and shares a line with x."""
+    return any(overlap(x, y) and y.file_path == x.file_path for y in l)
+
+
+@lemma(props=["C03"], types=dict(blocks=Blocks, k=PathT, x=CodeBlockT), name="file-filter-membership")
+def file_filter_membership(blocks, k, x):
+    return (len(blocks) == 0 or (ih(file_filter_membership, blocks[1:], k, x) and use(member_head_tail, blocks, x))) and \
+        (x in [b for b in blocks if b.file_path == k]) == (x in blocks and x.file_path == k)
+
+
+@opaque
+def first_hit(l: Blocks, x: CodeBlockT) -> CodeBlockT:
+    """Witness: the first block of l that overlaps x (x itself if there is none)."""
+    if len(l) == 0:
+        return x
+    if overlap(x, l[0]):
+        return l[0]
+    return first_hit(l[1:], x)
+
+
+@lemma(props=["C03"], types=dict(l=Blocks, x=CodeBlockT), name="overlap-witness")
+def overlap_witness(l, x):
+    reveal(first_hit, l, x)
+    return (len(l) == 0 or (ih(overlap_witness, l[1:], x) and use(member_head_tail, l, first_hit(l, x)))) and \
+        implies(any(overlap(x, y) for y in l), first_hit(l, x) in l and overlap(x, first_hit(l, x)))
+
+
+@lemma(props=["C03"], types=dict(l=Blocks, x=CodeBlockT, w=CodeBlockT), name="same-file-cover-from-witness")
+def cover_from_witness(l, x, w):
+    return (len(l) == 0 or (ih(cover_from_witness, l[1:], x, w) and use(member_head_tail, l, w))) and \
+        implies(w in l and overlap(x, w) and w.file_path == x.file_path, same_file_cover(x, l))
+
+
+@lemma(props=["C03"], types=dict(l1=Blocks, l2=Blocks), name="concat-head-tail")
+def concat_head_tail(l1, l2):
+    return implies(len(l1) > 0, (l1 + l2)[0] == l1[0] and (l1 + l2)[1:] == l1[1:] + l2)
+
+
+@lemma(props=["C03"], types=dict(l1=Blocks, l2=Blocks, x=CodeBlockT), name="same-file-cover-survives-prepending")
+def cover_concat(l1, l2, x):
+    return (len(l1) == 0 or (ih(cover_concat, l1[1:], l2, x) and use(concat_head_tail, l1, l2))) and \
+        implies(same_file_cover(x, l2), same_file_cover(x, l1 + l2))
+
+
+@lemma(props=["C03"], types=dict(blocks=Blocks, groups=BlockGroups, x=CodeBlockT), name="every-block-has-its-file-group")
+def every_block_has_group(blocks, groups, x):
+    return (len(blocks) == 0 or (ih(every_block_has_group, blocks[1:], groups, x) and use(member_head_tail, blocks, x))) and \
+        implies(all(has_group(groups, b) for b in blocks) and x in blocks, has_group(groups, x))
+
+
+def dedup_of_groups(groups):
+    return dedup_groups(list(groups.values()))
+
+
+@opaque
+def dedup_pairs(groups: BlockGroups) -> Blocks:
+    """dedup_of_groups as a fold over the (path, blocks) entries."""
+    if len(groups) == 0:
+        return []
+    return per_file(groups[0][1]) + dedup_pairs(groups[1:])
+
+
+@opaque
+def groups_okp(groups: BlockGroups, blocks: Blocks) -> Bool:
+    """groups_ok as a fold."""
+    return len(groups) == 0 or (groups[0][1] == [b for b in blocks if b.file_path == groups[0][0]]
+                                and groups_okp(groups[1:], blocks))
+
+
+@opaque
+def has_groupp(groups: BlockGroups, x: CodeBlockT) -> Bool:
+    """has_group as a fold."""
+    return len(groups) > 0 and (groups[0][0] == x.file_path or has_groupp(groups[1:], x))
+
+
+@lemma(props=["C03"], types=dict(groups=BlockGroups), name="values-head-tail")
+def values_head_tail(groups):
+    return implies(len(groups) > 0, list(groups.values())[0] == groups[0][1]
+                   and list(groups.values())[1:] == list(groups[1:].values()))
+
+
+@lemma(props=["C03"], types=dict(groups=BlockGroups), name="dedup-groups-is-a-fold-over-entries")
+def dedup_pairs_bridge(groups):
+    reveal(dedup_pairs, groups)
+    reveal(dedup_groups, list(groups.values()))
+    return (len(groups) == 0 or (ih(dedup_pairs_bridge, groups[1:]) and use(values_head_tail, groups))) and \
+        dedup_of_groups(groups) == dedup_pairs(groups)
+
+
+@lemma(props=["C03"], types=dict(groups=BlockGroups, blocks=Blocks), name="groups-ok-is-a-fold")
+def groups_ok_bridge(groups, blocks):
+    reveal(groups_okp, groups, blocks)
+    return (len(groups) == 0 or ih(groups_ok_bridge, groups[1:], blocks)) and \
+        implies(groups_ok(groups, blocks), groups_okp(groups, blocks))
+
+
+@lemma(props=["C03"], types=dict(groups=BlockGroups, x=CodeBlockT), name="has-group-is-a-fold")
+def has_group_bridge(groups, x):
+    reveal(has_groupp, groups, x)
+    return (len(groups) == 0 or ih(has_group_bridge, groups[1:], x)) and \
+        implies(has_group(groups, x), has_groupp(groups, x))
+
+
+@lemma(props=["C03"], types=dict(a=Blocks, b=Blocks, y=CodeBlockT), name="member-concat")
+def member_concat(a, b, y):
+    return (y in a + b) == (y in a or y in b)
+
+
+@lemma(props=["C03"], types=dict(groups=BlockGroups, blocks=Blocks, y=CodeBlockT), name="dedup-across-files-keeps-only-input-blocks")
+def dedup_sound(groups, blocks, y):
+    reveal(dedup_pairs, groups)
+    reveal(groups_okp, groups, blocks)
+    if len(groups) == 0:
+        return implies(groups_okp(groups, blocks) and y in dedup_pairs(groups), y in blocks)
+    ih(dedup_sound, groups[1:], blocks, y)
+    use(member_concat, per_file(groups[0][1]), dedup_pairs(groups[1:]), y)
+    use(greedy_members, sorted(groups[0][1], key=lambda b: b.start_line), [], y)
+    sorted_member_fact(groups[0][1], y, key=lambda b: b.start_line)
+    use(file_filter_membership, blocks, groups[0][0], y)
+    return implies(groups_okp(groups, blocks) and y in dedup_pairs(groups), y in blocks)
+
+
+@lemma(props=["C03"], types=dict(l1=Blocks, l2=Blocks, x=CodeBlockT), name="same-file-cover-survives-appending")
+def cover_concat_left(l1, l2, x):
+    return (len(l1) == 0 or (ih(cover_concat_left, l1[1:], l2, x) and use(concat_head_tail, l1, l2))) and \
+        implies(same_file_cover(x, l1), same_file_cover(x, l1 + l2))
+
+
+@lemma(props=["C03"], types=dict(g=Blocks, blocks=Blocks, k=PathT, x=CodeBlockT), name="file-group-selection-covers-its-blocks")
+def group_cover(g, blocks, k, x):
+    """One file: if g is exactly the blocks of file k, every block of that file is selected or shares a line with a
+    selected block of the same file."""
+    use(file_filter_membership, blocks, k, x)
+    sorted_member_fact(g, x, key=lambda b: b.start_line)
+    use(greedy_maximal, sorted(g, key=lambda b: b.start_line), [], x)
+    use(overlap_witness, per_file(g), x)
+    use(greedy_members, sorted(g, key=lambda b: b.start_line), [], first_hit(per_file(g), x))
+    sorted_member_fact(g, first_hit(per_file(g), x), key=lambda b: b.start_line)
+    use(file_filter_membership, blocks, k, first_hit(per_file(g), x))
+    use(cover_from_witness, per_file(g), x, first_hit(per_file(g), x))
+    return implies(g == [b for b in blocks if b.file_path == k] and x in blocks and x.file_path == k,
+                   x in per_file(g) or same_file_cover(x, per_file(g)))
+
+
+@lemma(props=["C03"], types=dict(g=Blocks, k=PathT, tail=BlockGroups, blocks=Blocks, x=CodeBlockT), name="dedup-cover-step")
+def dedup_cover_step(g, k, tail, blocks, x):
+    """One step of the fold: the head group covers the blocks of its own file, the tail's cover is kept."""
+    use(group_cover, g, blocks, k, x)
+    use(member_concat, per_file(g), dedup_pairs(tail), x)
+    use(cover_concat_left, per_file(g), dedup_pairs(tail), x)
+    use(cover_concat, per_file(g), dedup_pairs(tail), x)
+    return implies(g == [b for b in blocks if b.file_path == k] and x in blocks
+                   and (k == x.file_path or x in dedup_pairs(tail) or same_file_cover(x, dedup_pairs(tail))),
+                   x in per_file(g) + dedup_pairs(tail) or same_file_cover(x, per_file(g) + dedup_pairs(tail)))
+
+
+@lemma(props=["C03"], types=dict(groups=BlockGroups, blocks=Blocks, x=CodeBlockT), name="dedup-across-files-covers-every-block")
+def dedup_cover(groups, blocks, x):
+    reveal(dedup_pairs, groups)
+    reveal(groups_okp, groups, blocks)
+    reveal(has_groupp, groups, x)
+    if len(groups) == 0:
+        return not has_groupp(groups, x)
+    ih(dedup_cover, groups[1:], blocks, x)
+    use(dedup_cover_step, groups[0][1], groups[0][0], groups[1:], blocks, x)
+    return implies(groups_okp(groups, blocks) and x in blocks and has_groupp(groups, x),
+                   x in dedup_pairs(groups) or same_file_cover(x, dedup_pairs(groups)))
+
+
+@lemma(props=["C03"], types=dict(blocks=Blocks, x=CodeBlockT), name="deduplicate-blocks-sound-and-covering")
+def deduplicate_blocks_property(blocks, x):
+    """Property (block level, all files): deduplicate_blocks returns only input blocks, and every input block is
+    either returned or shares a line with a returned block OF THE SAME FILE -- no occurrence is dropped uncovered
+    (modulo the assumed grouping contract of BlockGrouper and the trusted contract of sorted())."""
+    r = call(D + "deduplicate_blocks", mk(DedupT), blocks)
+    g = call(BG + "group_blocks_by_file", mk(GrouperT), blocks)
+    reveal(dedup_groups, [])
+    use(dedup_pairs_bridge, g)
+    use(groups_ok_bridge, g, blocks)
+    use(has_group_bridge, g, x)
+    use(dedup_sound, g, blocks, x)
+    use(dedup_cover, g, blocks, x)
+    use(every_block_has_group, blocks, g, x)
+    return implies(x in r, x in blocks) and implies(x in blocks, x in r or same_file_cover(x, r))
+
+
+# =================================================================== the per-file selection stays sorted by start line
+def by_start(l):
+    return is_sorted(l, key=lambda b: b.start_line)
+
+
+@lemma(props=["C03"], types=dict(l=Blocks), name="sorted-tail")
+def sorted_tail(l):
+    return implies(by_start(l) and len(l) > 0, by_start(l[1:]) and implies(len(l) > 1, l[0].start_line <= l[1].start_line))
+
+
+@lemma(props=["C03"], types=dict(a=Blocks, s=Blocks), name="sorted-after-dropping-one")
+def sorted_drop(a, s):
+    """Pure: removing the first element of the second part keeps a concatenation ordered."""
+    return (len(a) == 0 or (ih(sorted_drop, a[1:], s) and use(concat_head_tail, a, s) and use(concat_head_tail, a, s[1:])
+                            and use(sorted_tail, a + s) and use(sorted_tail, a + s[1:]))) and \
+        use(sorted_tail, s) and use(sorted_tail, s[1:]) and \
+        implies(by_start(a + s) and len(s) > 0, by_start(a + s[1:]))
+
+
+@lemma(props=["C03"], types=dict(s=Blocks, kept=Blocks), name="greedy-selection-stays-sorted")
+def greedy_sorted(s, kept):
+    reveal(greedy, s, kept)
+    return (len(s) == 0 or (ih(greedy_sorted, s[1:], kept) and ih(greedy_sorted, s[1:], kept + [s[0]])
+                            and use(sorted_drop, kept, s))) and \
+        implies(by_start(kept + s), by_start(greedy(s, kept)))
+
+
+@lemma(props=["C03"], types=dict(file_blocks=Blocks), name="per-file-dedup-is-sorted-by-start-line")
+def per_file_sorted(file_blocks):
+    """Property: the blocks kept for one file are returned in increasing start-line order."""
+    r = call(D + "_remove_overlaps_from_file", None, file_blocks)
+    use(greedy_sorted, sorted(file_blocks, key=lambda b: b.start_line), [])
+    return by_start(r)
